@@ -16,6 +16,7 @@ import (
 	"strconv"
 	"strings"
 	"sync"
+	"sync/atomic"
 	"time"
 )
 
@@ -200,6 +201,7 @@ type MyWorld struct {
 	Hook   MyHook
 	Log    func(ev TraceEvent)
 	connID uint32
+	openConns atomic.Int64
 	conns  map[string][]net.Conn // by target host
 	instConns map[string][]net.Conn // by instance
 	deadInst map[string]bool
@@ -673,7 +675,12 @@ var (
 	reReplMonDelay = regexp.MustCompile(`(?i)^SELECT FLOOR\(CAST\('([^']*)' AS DECIMAL`)
 )
 
+// OpenConns is the number of client connections currently served.
+func (w *MyWorld) OpenConns() int { return int(w.openConns.Load()) }
+
 func (w *MyWorld) serve(c net.Conn, host string, id uint32) {
+	w.openConns.Add(1)
+	defer w.openConns.Add(-1)
 	defer c.Close()
 	m := &myConn{c: c}
 	w.mu.Lock()
